@@ -30,9 +30,18 @@ const PARAMS: ModelParams = ModelParams {
 
 /// Chains, cycles and inexact coefficients: the propagation-specific part of the generator.
 fn chain_model() -> BoxedStrategy<ModelCase> {
-    let coef = prop_oneof![
-        Just(1.0), Just(2.0), Just(3.0), Just(7.0), Just(0.1), Just(1.9), Just(-1.0), Just(-3.0), Just(0.5), Just(1.0 / 3.0)
-    ];
+    chain_model_with(vec![1.0, 2.0, 3.0, 7.0, 0.1, 1.9, -1.0, -3.0, 0.5, 1.0 / 3.0])
+}
+
+/// the same chains and cycles with coefficients that differ by up to 18 orders of magnitude: the
+/// propagation divides by them and subtracts nearly equal products, which is where rounding can
+/// push a derived bound past a feasible value
+fn magnitude_model() -> BoxedStrategy<ModelCase> {
+    chain_model_with(vec![1e-9, 1e-6, 1e-3, 7e-5, 0.1, 1.0 / 3.0, 1.0, 3.0, 1e3, 1e6, 1e9, -1e-6, -1e-3, -1.0, -1e3, -1e6, 123456.789, 0.000123456789])
+}
+
+fn chain_model_with(coefs: Vec<f64>) -> BoxedStrategy<ModelCase> {
+    let coef = (0..coefs.len()).prop_map(move |i| coefs[i]);
     let dom = prop_oneof![
         3 => Just(Dom::Real(None, None)),
         2 => Just(Dom::NonNeg(0.0, None)),
@@ -171,6 +180,7 @@ impl Prop for C07 {
             prop_oneof![
                 4 => model_case(PARAMS),
                 5 => chain_model(),
+                3 => magnitude_model(),
                 1 => slow_cycle(),
             ]
             .boxed(),
@@ -186,7 +196,7 @@ impl Prop for C07 {
         serde_json::to_string(&format!("{} || probes {:?}", c.model.text(), c.probes.iter().map(crate::gen::text::print_min).collect::<Vec<_>>())).unwrap()
     }
     fn rule(&self) -> String {
-        "C01 models plus propagation-specific models (chains and cycles a*x rel b*y + k over 2-5 variables with coefficients 1,2,3,7,0.1,1.9,1/3 and negative ones, |x-y| and max/min/division links, infinite and integer declared ranges, Boolean variables, contradictory rows, and the slow two-variable cycle x >= y + d, y >= x + d in boxes up to 1e5 wide that exhausts the 10000-step limit). (1) at every source-feasible point of the test set every interval returned by the analysis hook and every published domain of the compiled model contains the variable's value; (2) for generated probe expressions and points of the derived box (the test points that lie inside it) the derived enclosure contains the exact value, is never NaN and has lower <= upper; (3) the same holds when the step limit was reached or a contradiction was detected. Non-trivial = some derived interval strictly tighter than declared and a feasible point within 1/16 of a derived bound, or the step-limit / contradiction flag set. Distinct = distinct model text.".into()
+        "C01 models plus propagation-specific models (chains and cycles a*x rel b*y + k over 2-5 variables with coefficients 1,2,3,7,0.1,1.9,1/3 and negative ones, and the same shapes with coefficients from 1e-9 to 1e9 (ill-conditioned propagation), |x-y| and max/min/division links, infinite and integer declared ranges, Boolean variables, contradictory rows, and the slow two-variable cycle x >= y + d, y >= x + d in boxes up to 1e5 wide that exhausts the 10000-step limit). (1) at every source-feasible point of the test set every interval returned by the analysis hook and every published domain of the compiled model contains the variable's value; (2) for generated probe expressions and points of the derived box (the test points that lie inside it) the derived enclosure contains the exact value, is never NaN and has lower <= upper; (3) the same holds when the step limit was reached or a contradiction was detected. Non-trivial = some derived interval strictly tighter than declared and a feasible point within 1/16 of a derived bound, or the step-limit / contradiction flag set. Distinct = distinct model text.".into()
     }
     fn assumptions(&self) -> Vec<String> {
         vec!["containment is checked with a 1e-9 relative allowance (stated weakening of the literal 'contains')".into()]
